@@ -8,7 +8,8 @@ Statements are about
 A. least squares (`ols`): exact data on a line are fitted exactly (guard: two distinct abscissae).
 B. recovery: BET, Langmuir, t-plot, alpha-s, Dubinin–Astakhov: transform of exact model data is linear and the
    parameter formulas invert slope/intercept; end-to-end through `ols`.
-C. window selection: `searchsorted`, `limitWindow`, `decide3`, `slice`, `rouquerolMax`, `betWindow`, `openSection`.
+C. window selection: `searchsorted`, `limitWindow`, `decide3`, `slice`, `rouquerolMax`, `betWindow`, `openSection`;
+   tables of fewer than three points are refused for every value of the limits (`short_table_refused`).
 D. non-vacuity examples and concrete evaluations (tests, not properties).
 -/
 import PgVerif.Gen.CharR
@@ -1097,6 +1098,74 @@ theorem daWindow_default_slice (ps : List α) (w : ℕ × ℕ) (h : daWindow ps 
   simp only [ha, hb, List.take_length, List.drop_zero]
 
 end Defaults
+
+/-! ### C23: a table of fewer than three points is refused by every fit, whatever the limits (also none at all) -/
+section ShortTables
+variable {α : Type} [Field α] [LinearOrder α]
+
+omit [Field α] [LinearOrder α] in
+/-- a window whose upper index is at most `1` holds fewer than three points: refused -/
+lemma decide3_none_of_le_one (w : ℕ × ℤ) (h : w.2 ≤ 1) : decide3 w = none := by
+  unfold decide3
+  rw [if_pos]
+  omega
+
+omit [Field α] in
+/-- the Rouquerol maximum is an index of the table (also of the empty one) -/
+lemma rouquerolMax_le (roq : List α) : rouquerolMax roq ≤ roq.length - 1 := by
+  rcases eq_or_ne roq [] with h | h
+  · subst h; simp [rouquerolMax, rouquerolMaxAux]
+  · have := rouquerolMax_lt roq h; omega
+
+/-- every combination of given / `None` / `0` limits on a table of fewer than three points is refused -/
+theorem limitWindow_refused_of_short (ps : List α) (lo hi : Option α) (h : ps.length < 3) :
+    decide3 (limitWindow ps lo hi) = none := by
+  apply decide3_none_of_le_one
+  have := limitWindow_snd_lt ps lo hi
+  omega
+
+/-- BET: user limits or the automatic (Rouquerol) window, `roq` the transform of the same table -/
+theorem betWindow_refused_of_short (ps roq : List α) (tenth : α) (limits : Option (Option α × Option α))
+    (h : ps.length < 3) (hlen : roq.length = ps.length) : betWindow ps roq tenth limits = none := by
+  cases limits with
+  | none =>
+    rw [betWindow_auto]
+    apply decide3_none_of_le_one
+    have := rouquerolMax_le roq
+    simp only
+    omega
+  | some l => exact limitWindow_refused_of_short ps l.1 l.2 h
+
+/-- Langmuir: user limits or the default 5 %..90 % region -/
+theorem langWindow_refused_of_short (ps : List α) (c05 c90 : α) (limits : Option (Option α × Option α))
+    (h : ps.length < 3) : langWindow ps c05 c90 limits = none := by
+  cases limits with
+  | none => rw [langWindow_default]; exact limitWindow_refused_of_short ps _ _ h
+  | some l => exact limitWindow_refused_of_short ps l.1 l.2 h
+
+/-- Dubinin: user limits or the whole table -/
+theorem daWindow_refused_of_short (ps : List α) (limits : Option (Option α × Option α))
+    (h : ps.length < 3) : daWindow ps limits = none := by
+  cases limits with
+  | none => exact limitWindow_refused_of_short ps none none h
+  | some l => exact limitWindow_refused_of_short ps l.1 l.2 h
+
+/-- **C23.** "A BET, Langmuir or Dubinin fit on fewer than three points is refused" for a table that has fewer than three
+points in total: for EVERY value of `p_limits` — `None`, `(None, None)`, one-sided, `0`, all-including. -/
+theorem short_table_refused (ps roq : List α) (tenth c05 c90 : α) (limits : Option (Option α × Option α))
+    (h : ps.length < 3) (hlen : roq.length = ps.length) :
+    betWindow ps roq tenth limits = none ∧ langWindow ps c05 c90 limits = none ∧ daWindow ps limits = none :=
+  ⟨betWindow_refused_of_short ps roq tenth limits h hlen, langWindow_refused_of_short ps c05 c90 limits h,
+    daWindow_refused_of_short ps limits h⟩
+
+/-- hypotheses of `short_table_refused` on a two-point table, and the three evaluations without limits -/
+example : ([1/10, 2/10] : List ℚ).length < 3 ∧ ([9/100, 16/100] : List ℚ).length = ([1/10, 2/10] : List ℚ).length := by
+  decide
+example : betWindow (α := ℚ) [1/10, 2/10] [9/100, 16/100] (1/10) none = none := by decide +kernel
+example : langWindow (α := ℚ) [1/10, 2/10] (1/20) (9/10) none = none := by decide +kernel
+example : daWindow (α := ℚ) [1/10] (some (none, some (1/2))) = none := by decide +kernel
+
+end ShortTables
 
 /-! ## D. non-vacuity: the hypothesis bundles are satisfiable, and concrete evaluations of the model (TESTS, not properties) -/
 section Examples
